@@ -30,18 +30,18 @@ C = 100.0
 
 def cases(tier, seed):
     out = [{"kind": "rot_grid", "cls": "rotation_grid", "part": p, "parts": 4, "seed": seed} for p in range(4)]
-    kmax = 6 if tier == "quick" else 12
+    kmax = 6 if tier == "quick" else 32
     idx = 0
     for k in range(1, kmax + 1):
         for pat in ("generic", "zero_subdiag", "zero_column", "real_pos_subdiag", "scaled", "int", "arnoldi_like", "axis_subdiag", "axis_diag",
                     "neg_real_subdiag", "tiny_subdiag"):
-            for rep in range(1 if tier == "quick" else 4):
+            for rep in range(1 if tier == "quick" else 12):
                 out.append({"kind": "hess", "cls": "hess:" + pat, "k": k, "pat": pat, "idx": idx, "seed": seed})
                 idx += 1
-    nmax = 6 if tier == "quick" else 10
+    nmax = 6 if tier == "quick" else 28
     for n in range(1, nmax + 1):
         for nrhs in (1, 2, 3, 4):
-            for rep in range(2 if tier == "quick" else 8):
+            for rep in range(2 if tier == "quick" else 24):
                 out.append({"kind": "tri", "cls": f"tri:rhs{nrhs}", "n": n, "nrhs": nrhs, "idx": idx, "seed": seed})
                 idx += 1
     out.append({"kind": "inv", "cls": "dotinv_abs", "seed": seed})
